@@ -136,14 +136,25 @@ def _run_base(ctx):
              else 'a path falls off the end and returns None implicitly', implicit[0] if implicit and isinstance(implicit[0], ast.AST) else fn)
     # missing blob -> EXPLICIT_MISSING_FILE ; falsy path -> EXPLICIT_MISSING_FILE
     blob_arm = None
+    extra_disjuncts = []
+
+    def _is_none_test(t):
+        return isinstance(t, ast.Compare) and dotted(t.left) == p_blob and isinstance(t.ops[0], ast.Is) and \
+            isinstance(t.comparators[0], ast.Constant) and t.comparators[0].value is None
     for s in g.stmts():
         if isinstance(s, ast.If):
             t = s.test
-            if isinstance(t, ast.Compare) and dotted(t.left) == p_blob and isinstance(t.ops[0], ast.Is) and \
-                    isinstance(t.comparators[0], ast.Constant) and t.comparators[0].value is None:
+            if _is_none_test(t):
                 blob_arm = s
+            elif isinstance(t, ast.BoolOp) and isinstance(t.op, ast.Or) and any(_is_none_test(v) for v in t.values):
+                blob_arm = s
+                extra_disjuncts = [v for v in t.values if not _is_none_test(v)]
     if blob_arm is None:
         raise AnalysisError('`blob is None` arm not found in _get_diff_entry_stream')
+    if extra_disjuncts:
+        ctx.inst('R17.2', fid, repo.norm(blob_arm.test), False,
+                 'the "no blob on this side" arm is also taken when `%s`: an entry git reports as present (a zero-length notebook, ...) is handed out as the null file, i.e. as an '
+                 'addition or deletion git does not report' % ast.unparse(extra_disjuncts[0]), blob_arm)
     r = blob_arm.body[-1]
     ok = isinstance(r, ast.Return) and dotted(r.value) == 'EXPLICIT_MISSING_FILE'
     ctx.inst('R17.2', fid, repo.norm(blob_arm.test) + ' -> ' + repo.norm(r), ok,
